@@ -391,6 +391,15 @@ func (s *Syncer) LoadOnce(ctx context.Context, env *lmdb.Env, instance string, u
 		})
 		l.Debug("Started load")
 
+		// Refuse a snapshot this build cannot read before touching anything.
+		// The same version checks run for every DBI below, but a snapshot
+		// without any (non-private) DBI would otherwise never reach them
+		// and be recorded as merged.
+		if _, err := NewNativeIterator(snap.FormatVersion, snap.CompatVersion,
+			nil, 0, header.TxnID(txn.ID()), 0); err != nil {
+			return fmt.Errorf("create native iterator: %w", err)
+		}
+
 		// First update the shadow dbs to reflect the latest local state
 		tShadow1Start = time.Now()
 		if !schemaTracksChanges && localChanged {
